@@ -227,9 +227,25 @@ def _split_flags(fd):
 def _covering_form(rule):
     """rule body `return a + b (+ c) >= need` -> ([summands], need) else None"""
     rets = [n for n in ast.walk(rule.node) if isinstance(n, ast.Return)]
-    if len(rets) != 1 or not isinstance(rets[0].value, ast.Compare) or len(rets[0].value.ops) != 1:
+    if len(rets) != 1:
         return None
-    c = rets[0].value
+    # inline single-assignment locals
+    counts, defs = {}, {}
+    for n in ast.walk(rule.node):
+        if isinstance(n, ast.Assign) and len(n.targets) == 1 and isinstance(n.targets[0], ast.Name):
+            counts[n.targets[0].id] = counts.get(n.targets[0].id, 0) + 1
+            defs[n.targets[0].id] = n.value
+    defs = {k: v for k, v in defs.items() if counts[k] == 1 and k not in rule.argnames}
+
+    class Inline(ast.NodeTransformer):
+        def visit_Name(self, n):
+            if n.id in defs and isinstance(n.ctx, ast.Load):
+                return self.visit(ast.parse(ast.unparse(defs[n.id]), mode="eval").body)
+            return n
+
+    c = Inline().visit(ast.parse(ast.unparse(rets[0].value), mode="eval").body)
+    if not isinstance(c, ast.Compare) or len(c.ops) != 1:
+        return None
     left, op, right = c.left, c.ops[0], c.comparators[0]
     if isinstance(op, (ast.LtE, ast.Lt)):
         left, right = right, left
